@@ -172,7 +172,7 @@ pub fn install_hooks() {
                 return;
             }
             if site.starts_with("election:") || site == "replicate:after_apply" || (site == "db.map:set_value" && FINE_POINTS.load(std::sync::atomic::Ordering::Relaxed))
-                || (sim.fine.load(std::sync::atomic::Ordering::Relaxed) >= 2 && matches!(site, "db.map:set_value" | "db.map:inc_value" | "db.map:remove_value" | "db.map:get_value" | "db.map:set_value_version"))
+                || (sim.fine.load(std::sync::atomic::Ordering::Relaxed) >= 2 && matches!(site, "db.map:set_value" | "db.map:inc_value" | "db.map:remove_value" | "db.map:get_value" | "db.map:set_value_version" | "replicate:after_id"))
             {
                 sim.park_point(tid, site);
             }
